@@ -267,6 +267,7 @@ func registerSQL(ex *Explorer) {
 		in.DB = st
 		return in.newHandle("DB", &dbHandle{st})
 	}
+	I[vrtPath+".NewFaultDB"] = I[vrtPath+".NewDB"]
 	doExec := func(in *Interp, c *Cell, text string, args SliceVal) Value {
 		st, tx := in.storeOf(c)
 		if e, hit := in.dbFault("Exec"); hit {
@@ -704,9 +705,16 @@ func (in *Interp) sameLayer(a, b *storeLayer, ignore map[string]bool) *sym.Term 
 					}
 					ba, _ := sa.Ext.(*blob)
 					bb, _ := sb.Ext.(*blob)
-					if ba == nil || bb == nil || ba.ser != bb.ser {
+					if ba == nil || bb == nil || ba.kind != bb.kind {
 						return f.False
 					}
+					if ba.ser == bb.ser {
+						continue
+					}
+					if ba.typ == nil || bb.typ == nil || !types.Identical(ba.typ, bb.typ) || ba.val == nil || bb.val == nil {
+						return f.False
+					}
+					cs = append(cs, in.valuesEqual(ba.val, bb.val, ba.typ))
 					continue
 				}
 				c := env.compare("=", va, vb)
